@@ -360,8 +360,17 @@ def parse_items(toks, src, lo, hi, parent=None):
                 n = _skip_insig(toks, n + 1, hi)
             it.name = toks[n].text
             m = n
+            seen_eq = False
             while m < hi:
                 tt = toks[m]
+                if tt.kind == 'punct' and tt.text == '=' and toks[m - 1].text not in ('=', '<', '>', '!') and toks[m + 1].text not in ('=', '>'):
+                    seen_eq = True
+                if tt.kind == 'punct' and tt.text == '{' and not seen_eq and VERUS_MODE and it.kind in ('const', 'static'):
+                    # verus: `exec const X: T ensures .. { body }`
+                    it.open = m
+                    it.close = tt.match
+                    it.last = tt.match
+                    break
                 if tt.kind == 'punct' and tt.text in '([{':
                     m = tt.match + 1
                     continue
